@@ -2,5 +2,8 @@ import CG.Proofs.TopoOrders
 #print axioms CG.TopoThm.kahn_lag_sorted
 #print axioms CG.TopoThm.allTimeTopo_iff
 #print axioms CG.TopoThm.allTimeTopo_eq
+#print axioms CG.TopoThm.allTimeTopo_nil
+#print axioms CG.TopoThm.allTimeTopo_ne_nil
 #print axioms CG.TopoThm.lagsSorted_iff
 #print axioms CG.TopoThm.isTopoOrder_iff
+#print axioms CG.TopoThm.linExt_path_forward
